@@ -468,6 +468,10 @@ impl<'a> AasmParser<'a> {
                                     n
                                 )));
                             }
+                            // the disassembler appends the function's name as a comment-like string
+                            if let Token::String(_) = self.current {
+                                self.advance()?;
+                            }
                             // Encode as nested function marker (uses dedicated tag)
                             Ok(Value::nested_fn_marker((n - 1) as usize)) // -1 because main is @0
                         } else {
